@@ -38,6 +38,8 @@ def _mk():
                 seq = args[0]
                 try:
                     ret = list(comp.read_batch([comp.registers[r] for r in seq]))
+                    # a missing result (None) is a wrong value, not a trace the validator cannot read
+                    ret = ["<none>" if v is None else v for v in ret]
                     exc = "none"
                 except Exception as ex:      # behaviour of the code under test, not of the harness
                     ret, exc = [], type(ex).__name__
